@@ -691,10 +691,23 @@ impl<'c, 's> Run<'c, 's> {
     }
 
     fn op_garbage(&mut self, ni: usize) {
-        let bytes = match self.ch.choose(3) {
+        let bytes = match self.ch.choose(4) {
             0 => {
                 let l = self.ch.size(259) as usize;
                 self.rand_fill(l)
+            }
+            3 => {
+                // noise that happens to carry the MCTP command code in byte 1
+                let l = 3 + self.ch.choose(38) as usize;
+                let mut b = vec![0u8; l];
+                let s = 1 + self.ch.choose((1 << 24) - 1);
+                fill(s, &mut b);
+                b[1] = 0x0F;
+                if self.ch.choose(2) == 1 {
+                    b[0] = self.nodes[ni].cfg.addr << 1;
+                }
+                self.st.probe("garbage-with-mctp-command-code");
+                b
             }
             1 if !self.frames.is_empty() => {
                 // a prefix of an earlier frame (every truncation point), optionally with a random tail
@@ -985,8 +998,8 @@ impl<'c, 's> Run<'c, 's> {
             self.viol(Prop::C07, format!("C07/too-short/{}", api), format!("{} -> {}", call.describe(), hex(f)));
             return;
         }
-        if f[9] != 0x00 {
-            self.viol(Prop::C07, format!("C07/control-header-bits/{}", api), format!("{}: byte 9 = {:#04x}, expected 0x00 ; {}", call.describe(), f[9], hex(f)));
+        if f[9] & 0xE0 != 0 {
+            self.viol(Prop::C07, format!("C07/control-header-bits/{}", api), format!("{}: byte 9 = {:#04x}, request/datagram/reserved bits must be clear ; {}", call.describe(), f[9], hex(f)));
         }
         if f[10] != RESP_CMD[kind as usize] {
             self.viol(Prop::C07, format!("C07/command-code/{}", api), format!("{}: byte 10 = {:#04x} ; {}", call.describe(), f[10], hex(f)));
